@@ -60,6 +60,9 @@ class ChannelItem(EFLRItem, DimensionedItem):
         """
 
         # need the attribute defined for representation code check
+        if cast_dtype is not None:
+            ReprCodeConverter.validate_numpy_dtype(cast_dtype)  # before the item registers itself with its parent
+
         self._cast_dtype: Union[numpy_dtype_type, None] = None
 
         self.long_name = EFLROrTextAttribute('long_name', object_class=LongNameSet)
